@@ -12,9 +12,12 @@ case kinds
 Observables (graph level): canonical reactant graph, mapping_pairs, canonical product graph (node ids, all attributes);
 validator verdicts RC / ITS + both reaction centres; balance verdict + element counts with hydrogens + charges.
 """
+import json
+
 from ..gen import c01_enc as E
 from ..gen import c01_rsmi as R
 from ..gen import c09_gen as G9
+from ..gen import c09_hist as HI
 from ..tok import S
 
 PID = "C09"
@@ -171,8 +174,149 @@ def _fit(rsmi):
         return "ValueError"
 
 
+# ------------------------------------------------------------------ histories (round 3): steps on shared objects
+
+DEFAULT_ATTRS = ("element", "aromatic", "charge", "hcount")
+
+
+def _canon_term(rsmi, backend, wl_iterations=3, node_attrs=DEFAULT_ATTRS):
+    """Gallina term of the model for CanonRSMI(backend, ...).canonicalise(rsmi), or None outside the model"""
+    gh = _raw_graphs(rsmi)
+    if gh is None or not _ascii_elems(*gh) or gh[0].number_of_nodes() == 0:
+        return None
+    g, h = E.from_nx(gh[0]), E.from_nx(gh[1])
+    if backend == "wl":
+        r = _wl_ranks(gh[0], wl_iterations, node_attrs)
+        ranks = "[" + "; ".join("(%s, %s)" % (E.cN(n), E.cZ(r[n])) for n, _ in g["nodes"]) + "]"
+        return "run_canon_wl %s %s %s" % (ranks, E.coq_mgraph(g), E.coq_mgraph(h))
+    if backend == "generic":
+        return "run_canon_generic %s %s" % (E.coq_mgraph(g), E.coq_mgraph(h))
+    if backend == "nauty":
+        if tuple(node_attrs) != DEFAULT_ATTRS or len(g["nodes"]) > NAUTY_MAX_ATOMS:
+            return None
+        try:
+            from synkit.Graph.canon_graph import GraphCanonicaliser
+            _with_alarm(SLOW_MODEL_S, GraphCanonicaliser(backend="nauty")._canon_nauty, gh[0])
+        except _Slow:
+            return None
+        return "run_canon_nauty %s %s" % (E.coq_mgraph(g), E.coq_mgraph(h))
+    return None                                   # morgan: oracle only
+
+
+def _hist_terms(case):
+    """[(step index, Gallina term)] for the steps the model evaluates (static decision, shared by impl and coq_case)"""
+    worker_init()
+    steps = case["steps"]
+    out = []
+    ctor, last = {}, {}
+    for i, st in enumerate(steps):
+        op = st["op"]
+        try:
+            if op == "new":
+                ctor[st["obj"]] = st
+            elif op == "mutate":
+                last.pop(st["obj"], None)
+            elif op == "check" and st.get("api") != "taut":
+                gs = [_valid_graphs(st["m"]), _valid_graphs(st["t"])]
+                if gs[0] is None or gs[1] is None:
+                    continue
+                rc = st.get("method", "RC").upper() == "RC" or st.get("api") == "default"
+                if not rc and not _its_in_domain(gs):
+                    continue
+                lits = " ".join(E.coq_mgraph(E.from_nx(x)) for gh in gs for x in gh)
+                ia = "true" if st.get("ia") and st.get("api") != "default" else "false"
+                out.append((i, "tbool (%s %s %s)" % ("smiles_check_rc_o" if rc else "smiles_check_its_o", ia, lits)))
+            elif op == "canon":
+                c = ctor[st["obj"]]
+                t = _canon_term(st["rsmi"], c["backend"], c.get("wl_iterations", 3), tuple(c.get("node_attrs", DEFAULT_ATTRS)))
+                last[st["obj"]] = t
+                if t is not None:
+                    out.append((i, t))
+            elif op == "props":
+                t = last.get(st["obj"])
+                if t is not None:
+                    out.append((i, t))
+            elif op == "bal" and st.get("api") in ("rsmi", "dict", "dicts", "dicts_str", "dicts_one"):
+                rs = list(st["rsmis"]) if st["api"] != "dicts_one" else list(st["rsmis"])[:1]
+                ghs = [_side_graphs(r) for r in rs]
+                if any(x is None for x in ghs) or not rs:
+                    continue
+                out.append((i, "L [%s]" % "; ".join("tbool (balancedb %s %s)" % (E.coq_mgraph(E.from_nx(a)), E.coq_mgraph(E.from_nx(b)))
+                                                     for a, b in ghs)))
+        except (KeyError, TypeError, ValueError):
+            continue
+    return out
+
+
+def _impl_hist(case):
+    res = HI.run_history(case["steps"])
+    if not (isinstance(res, list) and len(res) == len(case["steps"]) and all(isinstance(r, dict) for r in res)):
+        return ["history-failed", res]
+    return [res[i]["model"] for i, _ in _hist_terms(case)]
+
+
+def _ref_check(st):
+    """reference verdict of a validator step, or None when the inputs are outside the property's domain"""
+    I1, I2 = G9.ref_its(st["m"]), G9.ref_its(st["t"])
+    if I1 is None or I2 is None:
+        return None
+    default = st.get("api") == "default"
+    if st.get("method", "RC").upper() == "RC" or default:
+        tol = bool(st.get("ia")) and not default
+        return G9.iso(G9.ref_rc(I1, tol), G9.ref_rc(I2, tol))
+    return G9.iso(I1, I2)
+
+
+def _oracle_hist(case):
+    steps = case["steps"]
+    res = HI.run_history(steps)
+    if not (isinstance(res, list) and len(res) == len(steps) and all(isinstance(r, dict) for r in res)):
+        return [_fail("history-crash", "history did not run: %r" % (res,))]
+    fails = []
+    for i, st in enumerate(steps):
+        got = res[i]["full"]
+        where = "step %d %s of %s" % (i, json.dumps(st)[:300], case.get("name", ""))
+        # (1) the answer of every step is the answer of a fresh evaluation (fresh objects, nothing called before)
+        fresh = HI.run_fresh(steps, i)
+        if fresh is not None:
+            ff = fresh["full"] if isinstance(fresh, dict) else fresh
+            if ff != got:
+                fails.append(_fail("history-independence", "%s: in the history %s, evaluated alone %s" % (where, json.dumps(got)[:250], json.dumps(ff)[:250])))
+                continue
+        # (2) the property itself, per step, against the independent references
+        if st["op"] == "check" and st.get("api") != "taut" and isinstance(got, list):
+            want = _ref_check(st)
+            if want is not None and got[0] != want:
+                fails.append(_fail("validator-exact", "%s: verdict %r, reference %r" % (where, got[0], want)))
+        elif st["op"] == "bal" and st.get("api") in ("rsmi", "dict", "dicts", "dicts_str", "dicts_one") and isinstance(got, list):
+            vs = got if st["api"] == "rsmi" else got[0]
+            rs = list(st["rsmis"]) if st["api"] != "dicts_one" else list(st["rsmis"])[:1]
+            for r, v in zip(rs, vs):
+                want = G9.ref_balanced(r) if r.count(">>") == 1 else None
+                if want is not None and v != want:
+                    fails.append(_fail("balance-iff", "%s: %r judged %r, reference %r" % (where, r, v, want)))
+            if st["api"].startswith("dicts") and not (got[3] and got[4] == len(rs)):
+                fails.append(_fail("balance-partition", "%s: flags/partition inconsistent %r" % (where, got)))
+        elif st["op"] == "canon" and isinstance(got, dict) and got.get("rsmi"):
+            r, out = st["rsmi"], got["rsmi"]
+            I_in = G9.ref_its(r) if r.count(">>") == 1 else None
+            if I_in is not None and len(I_in) and "None" not in out.split(">>"):
+                I_out = G9.ref_its(out)
+                if I_out is None or (I_in.graph["unmapped"] == (0, 0) and not G9.iso(I_in, I_out)):
+                    fails.append(_fail("canon-equivalent", "%s: canonical form %r not atom-map-equivalent" % (where, out)))
+                elif _sides_unmapped(out) != _sides_unmapped(r):
+                    fails.append(_fail("canon-unmapped-sides", "%s: unmapped sides changed in %r" % (where, out)))
+            if not got.get("returns_self", True):
+                fails.append(_fail("canon-api", "%s: canonicalise did not return the object" % where))
+        elif st["op"] == "props" and isinstance(got, list) and got[0] != got[1]:
+            fails.append(_fail("history-independence", "%s: two consecutive reads of the properties differ" % where))
+    return fails[:3]
+
+
 def impl(case):
     k = case["kind"]
+    if k.startswith("hist-"):
+        return _impl_hist(case)
     if k.startswith("canon-"):
         return _impl_canon(case)
     if k.startswith("valid-"):
@@ -186,7 +330,7 @@ def impl(case):
 
 # ------------------------------------------------------------------ model encoder
 
-def _wl_ranks(G):
+def _wl_ranks(G, iterations=3, node_attrs=("element", "aromatic", "charge", "hcount")):
     """The colours GraphCanonicaliser._canon_wl sorts by (networkx WL subgraph hashes, the implementation's own call, wrapped),
     shipped as order-preserving ranks: an oracle input of the model."""
     import synkit.Graph.canon_graph as M
@@ -199,7 +343,7 @@ def _wl_ranks(G):
         return out
     M._wl_hashes = wrapped
     try:
-        M.GraphCanonicaliser(backend="wl", wl_iterations=3, node_attrs=("element", "aromatic", "charge", "hcount"))._canon_wl(G)
+        M.GraphCanonicaliser(backend="wl", wl_iterations=iterations, node_attrs=list(node_attrs))._canon_wl(G)
     finally:
         M._wl_hashes = orig
     vals = sorted(set(seen.values()))
@@ -214,6 +358,9 @@ def _ascii_elems(*gs):
 def coq_case(case):
     worker_init()
     k = case["kind"]
+    if k.startswith("hist-"):
+        ts = _hist_terms(case)
+        return "L [%s]" % "; ".join(t for _, t in ts)
     try:
         if k.startswith("canon-"):
             gh = _raw_graphs(case["rsmi"])
@@ -388,6 +535,8 @@ def _oracle_std(case):
 def oracle(case):
     worker_init()
     k = case["kind"]
+    if k.startswith("hist-"):
+        return _oracle_hist(case)
     if k.startswith("canon-"):
         try:
             return _with_alarm(3 * SLOW_IMPL_S, _oracle_canon, case)[:3]
@@ -404,6 +553,8 @@ def oracle(case):
 
 def nontrivial(case, obs):
     k = case["kind"]
+    if k.startswith("hist-"):
+        return isinstance(obs, list) and len(case["steps"]) >= 2 and obs[:1] != ["history-failed"]
     if k.startswith("canon-"):
         return isinstance(obs, list) and len(obs) == 3 and len(obs[1]) >= 2
     if k.startswith("valid-"):
@@ -487,6 +638,136 @@ def _canon_cases(how, r, orig=None, src=None, backends=BACKENDS):
             c["src"] = src
         out.append(c)
     return out
+
+
+# reactions whose centre contains bonds changing by less than 1 (an aromatic ring is formed or destroyed): the two modes of
+# smiles_check (ignore_aromaticity) disagree about their centre
+AROM = [
+    "[CH3:8][c:1]1[cH:2][cH:3][cH:4][o:5]1.[CH2:6]=[CH2:7]>>[CH3:8][C:1]12[CH:2]=[CH:3][CH:4]([O:5]1)[CH2:7][CH2:6]2",
+    "[cH:1]1[cH:2][cH:3][cH:4][cH:5][cH:6]1.[H:7][H:8]>>[CH:1]1=[CH:2][CH:3]=[CH:4][CH:5]([H:7])[CH:6]1[H:8]",
+    "[CH:1]1=[CH:2][CH:3]=[CH:4][CH:5]([H:7])[CH:6]1[H:8]>>[cH:1]1[cH:2][cH:3][cH:4][cH:5][cH:6]1.[H:7][H:8]",
+    "[cH:1]1[cH:2][cH:3][cH:4][nH:5]1.[CH2:6]=[CH2:7]>>[CH:1]12[CH:2]=[CH:3][CH:4]([NH:5]1)[CH2:7][CH2:6]2",
+    "[cH:1]1[cH:2][cH:3][cH:4][cH:5][cH:6]1>>[CH:1]1=[CH:2][CH2:3][CH:4]=[CH:5][CH2:6]1",
+    "[CH3:9][c:1]1[cH:2][cH:3][c:4]([CH3:10])[cH:5][cH:6]1.[CH2:7]=[CH2:8]>>[CH3:9][C:1]12[CH:2]=[CH:3][C:4]([CH3:10])([CH:5]=[CH:6]1)[CH2:8][CH2:7]2",
+]
+# degenerate / out-of-the-ordinary strings: empty sides, single atoms, unmapped, map number 0, repeated map numbers,
+# two- and three-digit ring closures and map numbers
+DEGENERATE = [
+    ">>", "C>>", ">>C", "C>>C", "[CH4:1]>>[CH4:1]", "[H+:1]>>[H+:1]", "CC(=O)O.OC>>CC(=O)OC.O", "[CH3:0][OH:1]>>[CH3:0][OH:1]",
+    "[CH3:1][CH3:1]>>[CH3:1][CH3:1]", "[CH3:1][OH:2]>>[CH3:1][OH:2]", "[CH3:1][OH:2].[CH3:1][OH:2]>>[CH3:1][OH:2]",
+    "[CH3:100][Br:250].[OH-:999]>>[CH3:100][OH:999].[Br-:250]", "[CH3:1][Br:2].[OH-:3]>>[CH3:1][OH:3].[Br-:2]",
+    "[CH2:1]%10[CH2:2][CH2:3][CH2:4][CH2:5][CH2:6]%10.[Cl:7][Cl:8]>>[CH2:1]%11[CH2:2][CH2:3][CH2:4][CH2:5][CH:6]%11[Cl:7].[ClH:8]",
+    "C%12CCCCC%12.ClCl>>C%10CCCCC%10Cl.Cl", "[Fe+3:1].[Cl-:2]>>[Fe+2:1].[Cl:2]", "[Na+].[Cl-]>>[Na+].[Cl-]", "O>>O",
+]
+
+
+def _swap_of(r, rng):
+    sw = [x for x in G9.centre_swaps(r, rng, per_kind=1) if x[0] == "noneq"]
+    return sw[0][3] if sw else None
+
+
+def _rewrite(r, rng):
+    try:
+        return R.reroot(R.renumber_maps(r, rng), rng)
+    except Exception:
+        return R.renumber_maps(r, rng)
+
+
+def _hist(area, steps, src):
+    return dict(kind="hist-" + area, steps=steps, src=src)
+
+
+def gen_histories(tier, rng, corp):
+    q = tier == "quick"
+    cases = []
+    small = [x for x in corp if len(R.map_numbers(x[2])) <= 28]
+    plain = [HAND_CANON[1], HAND_CANON[2], HAND_CANON[6]] + [x[2] for x in rng.sample(small, 3 if q else 25)]
+    arom = list(AROM) if not q else rng.sample(AROM, 4)
+    APIS = ("pos", "kw", "inst", "pair", "batch", "df", "equiv")
+
+    def chk(m, t, method="RC", ia=False, api=None):
+        return dict(op="check", api=api or rng.choice(APIS), m=m, t=t, method=method, ia=ia)
+
+    # ---- validator: the same strings under different options in sequence, in both orders; arguments swapped; API forms
+    for n_, t in enumerate(arom + plain):
+        m, m2, w = _rewrite(t, rng), _rewrite(t, rng), _swap_of(t, rng)
+        src = "hv#%d" % n_
+        tol_first = [chk(m, t, "RC", True), chk(m, t, "RC", False), chk(t, m, "RC", False), chk(m2, t, "ITS", False), chk(t, m2, "RC", False, "default")]
+        def_first = [chk(m, t, "RC", False), chk(t, m2, "ITS", True), chk(m, t, "RC", True), chk(m2, t, "rc", False), chk(m, t, "its", False)]
+        if w:
+            tol_first += [chk(w, t, "RC", False), chk(_rewrite(w, rng), t, "ITS", False)]
+            def_first += [chk(w, t, "RC", True), chk(w, t, "RC", False)]
+        cases.append(_hist("valid", tol_first, src))
+        cases.append(_hist("valid", def_first, src))
+        if n_ % 3 == 0:
+            # interleaved with another reaction, every API form once, tautomer workflow in between
+            o = plain[(n_ + 1) % len(plain)]
+            steps = [chk(m, t, "RC", True, "pair"), chk(o, o, "RC", False, "batch"), chk(m, t, "RC", False, "kw"),
+                     chk(m, o, "RC", False, "pos"), chk(m2, t, "RC", False, "df"), chk(t, t, "ITS", True, "inst"),
+                     chk(m2, t, "RC", False, "equiv"), chk(m2, t, "RC", False, "default")]
+            if len(R.map_numbers(t)) <= 10:
+                steps.insert(1, chk(m, t, "RC", True, "taut"))
+            cases.append(_hist("valid", steps, src))
+    for d in DEGENERATE:
+        cases.append(_hist("valid", [chk(d, d, "RC", False, "pos"), chk(d, d, "ITS", True, "kw"), chk(d, DEGENERATE[12], "RC", False, "pair"),
+                                     chk(DEGENERATE[12], d, "ITS", False, "batch")], "degenerate"))
+
+    # ---- canonicaliser: one object reused, results mutated by the caller, options / back-ends in sequence
+    ATTRS = [list(DEFAULT_ATTRS), ["hcount", "charge", "aromatic", "element"], ["element"], ["element", "aromatic", "charge", "hcount", "neighbors"]]
+    pool = plain + arom[:2]
+    for n_, r in enumerate(pool):
+        r2 = pool[(n_ + 1) % len(pool)]
+        v = R.renumber_maps(r, rng)
+        src = "hc#%d" % n_
+        for be in (BACKENDS if not q else (BACKENDS[n_ % 2],)):
+            cases.append(_hist("canon", [dict(op="new", obj="a", backend=be), dict(op="canon", obj="a", rsmi=r), dict(op="props", obj="a"),
+                                         dict(op="canon", obj="a", rsmi=r2, call="call"), dict(op="canon", obj="a", rsmi=r),
+                                         dict(op="mutate", obj="a"), dict(op="canon", obj="a", rsmi=r), dict(op="props", obj="a"),
+                                         dict(op="mutate", obj="a"), dict(op="canon", obj="a", rsmi=v), dict(op="expand", obj="a", rsmi=r2),
+                                         dict(op="helpers", obj="a", rsmi=r)], src))
+        if n_ % 2 == 0:
+            at = ATTRS[(n_ // 2) % len(ATTRS)]
+            cases.append(_hist("canon", [dict(op="new", obj="a", backend="wl", wl_iterations=rng.choice((1, 2, 5)), node_attrs=at),
+                                         dict(op="new", obj="b", backend="wl"), dict(op="new", obj="c", backend="generic"),
+                                         dict(op="new", obj="d", backend="morgan"), dict(op="new", obj="e", backend="nauty", pos=True),
+                                         dict(op="canon", obj="a", rsmi=r), dict(op="canon", obj="b", rsmi=r), dict(op="canon", obj="c", rsmi=r),
+                                         dict(op="canon", obj="d", rsmi=r), dict(op="canon", obj="e", rsmi=r), dict(op="canon", obj="b", rsmi=v),
+                                         dict(op="canon", obj="a", rsmi=v), dict(op="props", obj="b"), dict(op="props", obj="c")], src))
+    for k in range(0, len(DEGENERATE), 3):
+        ds = DEGENERATE[k:k + 3]
+        steps = [dict(op="new", obj="a", backend="wl"), dict(op="new", obj="n", backend="nauty")]
+        for d in ds:
+            steps += [dict(op="canon", obj="a", rsmi=d), dict(op="canon", obj="n", rsmi=d), dict(op="props", obj="a")]
+        cases.append(_hist("canon", steps, "degenerate"))
+
+    # ---- Standardize: one object, options in sequence
+    stereo = [x[2] for x in corp if "@" in x[2] and len(R.map_numbers(x[2])) <= 40]
+    for n_, r in enumerate(plain[:4] + rng.sample(stereo, 2 if q else 20)):
+        v = R.renumber_maps(r, rng)
+        cases.append(_hist("std", [dict(op="snew", obj="s"), dict(op="std", obj="s", api="fit", rsmi=r, remove_aam=False, ignore_stereo=False),
+                                   dict(op="std", obj="s", api="fit_default", rsmi=r), dict(op="std", obj="s", api="fit_pos", rsmi=v, remove_aam=True, ignore_stereo=False),
+                                   dict(op="std", obj="s", api="fit", rsmi=v), dict(op="std", obj="s", api="std_rsmi", rsmi=r, ignore_stereo=True),
+                                   dict(op="std", obj="s", api="rm_aam", rsmi=r), dict(op="std", obj="s", api="fit_default", rsmi=r),
+                                   dict(op="std", obj="s", api="categorize", rsmi=r, others=[r, v, "C>>C"])], "hs#%d" % n_))
+    cases.append(_hist("std", [dict(op="snew", obj="s")] + [dict(op="std", obj="s", api=a, rsmi=d) for d in DEGENERATE for a in ("fit_default", "std_rsmi")],
+                       "degenerate"))
+
+    # ---- balance: instance reused, input forms, n_jobs, results mutated by the caller
+    brs = [x[2] for x in rng.sample(corp, 4 if q else 40)] + HAND_BALANCE[:6]
+    for n_ in range(0, len(brs) - 2, 3):
+        rs = brs[n_:n_ + 3] + ["C>>CC"]
+        for nj in ((1,) if q and n_ else (1, 2)):
+            cases.append(_hist("bal", [dict(op="bnew", obj="b", n_jobs=nj, pos=bool(n_ % 2)), dict(op="bal", obj="b", api="dicts", rsmis=rs, column="rx", mutate=True),
+                                       dict(op="bal", obj="b", api="dicts_str", rsmis=rs, mutate=True), dict(op="bal", obj="b", api="rsmi", rsmis=rs),
+                                       dict(op="bal", obj="b", api="dicts", rsmis=list(reversed(rs)), column="reactions", pos=True),
+                                       dict(op="bal", obj="b", api="dict", rsmis=rs, column="r"), dict(op="bal", obj="b", api="dicts_one", rsmis=rs[1:]),
+                                       dict(op="bal", obj="b", api="formula", rsmis=rs), dict(op="bal", obj="b", api="parse", rsmis=rs, column="k")],
+                               "hb#%d" % n_))
+    cases.append(_hist("bal", [dict(op="bnew", obj="b", n_jobs=1), dict(op="bal", obj="b", api="rsmi", rsmis=[d for d in DEGENERATE]),
+                               dict(op="bal", obj="b", api="dicts_str", rsmis=[d for d in DEGENERATE]),
+                               dict(op="bal", obj="b", api="dicts", rsmis=[], column="x"), dict(op="bal", obj="b", api="formula", rsmis=DEGENERATE[:6])],
+                       "degenerate"))
+    return cases
 
 
 def gen_cases(tier, rng):
@@ -576,6 +857,7 @@ def gen_cases(tier, rng):
                 except Exception:
                     pass
         cases.append(dict(kind="std", rsmi=r, variants=vs, src="%s#%d" % (s, i)))
+    cases += gen_histories(tier, rng, corp)
     return cases
 
 
